@@ -477,6 +477,9 @@ sys.exit(1 if bad else 0)
 
 def main(tier, seed):
     rep = Report(PID, tier, seed, "proof")
+    from engine import crosscheck
+
+    crosscheck.attach(rep, seed)
     rep.assumed_contract("np.array(..., dtype=float), np.repeat, np.tile return fresh arrays; scipy from_quat∘as_quat = identity")
     rep.assume("core functions' in-place writes only where the row-generic shim reaches them (wrappers fully; cores listed in C06)")
     rep.assume("style / parent / children are not touched by any function reachable from getBH_level2: AST frame scan for pose writes only; "
